@@ -20,7 +20,7 @@ META = {
 }
 SPECDIR = SPECS / "sock"
 A, D1, D2 = 1, 8, 9
-BMAP = {1: b"a", 2: b"b", 8: b"\r", 9: b"\n"}
+BMAP = {1: b"a", 2: b"b", 8: b"\r", 9: b"\n", 3: b"\x00", 4: b"\xff", 5: b"0", 6: b" ", 7: b"\x80"}
 RMAP = {v[0]: k for k, v in BMAP.items()}
 
 
@@ -183,20 +183,20 @@ def gen_call(rng, n):
 def recv_session(rng, maxlen):
     from boltons import socketutils as su
     n = rng.randint(0, maxlen)
-    stream = [rng.choice([A, A, 2, D1, D1, D2]) for _ in range(n)]
+    stream = [rng.choice([A, A, 2, D1, D1, D2] + ([3, 4, 5, 6, 7] if n % 3 == 0 else [])) for _ in range(n)]     # every third stream: NUL, high bytes, a digit, a blank too
     plan = []
     left = n
-    style = rng.choice(["bytewise", "random", "whole", "random"])
+    style = rng.choice(["bytewise", "random", "whole", "random", "larger"])
     while left > 0:
         if rng.random() < 0.25:
             plan.append(rng.choice(["T", "T", "T", "E", "E", "R"]))
             continue
-        k = 1 if style == "bytewise" else (left if style == "whole" else rng.randint(1, min(4, left)))
+        k = 1 if style == "bytewise" else (left if style == "whole" else rng.randint(1, min(4, left)) if style != "larger" else rng.randint(1, left))
         plan.append(k)
         left -= k
     if rng.random() < 0.3:
         plan.append("T")
-    recvsize = rng.choice([1, 2, 3, 4, None])
+    recvsize = rng.choice([1, 2, 3, 4, None] + ([7, 16] if style == "larger" else []))
     to = rng.choice([None, 1000.0, "default"])
     jump = rng.choice([None, None, rng.randint(1, 12)])
     if jump is not None:
@@ -211,11 +211,17 @@ def recv_session(rng, maxlen):
     evs = []
     Clock(jump).use()
     try:
-        for _ in range(rng.randint(1, 5)):
+        for _ in range(rng.randint(1, 5) if n < 25 else rng.randint(4, 14)):
             call = gen_call(rng, n)
             if inst_max is not None and call["c"] in ("recv_until", "recv_close") and rng.random() < 0.35:
                 call["omit_maxsize"], call["maxsize"] = True, inst_max
             for attempt in range(12):
+                if attempt and rng.random() < 0.3:
+                    # after an interruption the caller asks for something else (another delimiter, another call): nothing of
+                    # the interrupted attempt - search offsets, collected chunks - may show in it
+                    call = gen_call(rng, n)
+                    if inst_max is not None and call["c"] in ("recv_until", "recv_close") and rng.random() < 0.35:
+                        call["omit_maxsize"], call["maxsize"] = True, inst_max
                 r = run_call(bs, call, to)
                 try:
                     rb = dec(bs.getrecvbuffer())
